@@ -121,6 +121,43 @@ CLAIMED.update({
         'chunk indices and three phases; workloads, multi-fault sequences '
         'and exception classes are sampled. BaseException is not injected.'),
 })
+CLAIMED.update({
+    'C12': dict(
+        level='exploration', ref='DESIGN.md section 4 C12',
+        technique=TECH + 'operation histories on a simulated wall clock '
+        '(override / advance / clear / fixture, clock steps, jumps and '
+        'backward steps on the un-overridden path) against an '
+        'integer-microsecond reference clock',
+        text='Seeded search over histories of set_time_override, TimeFixture '
+        'setUp/cleanUp, advance_time_delta/seconds, clear_time_override and '
+        'queries (utcnow, utcnow_ts, is_older_than, is_newer_than, is_soon '
+        'with naive / fixed-offset / named-zone / ISO-string arguments and '
+        'margins placed exactly on and one microsecond around the '
+        'comparison boundary) with the wall clock behind shims; every answer '
+        'is compared with an integer-microsecond reference clock; the pure '
+        'clauses (normalize_time, parse_isotime o isoformat, unmarshall o '
+        'marshall, leap second) ride along as operations.',
+        note='Trusted: datetime/zoneinfo arithmetic, timedelta rounding. '
+        'Apart from the clock this is input generation; it is claimed '
+        'because every comparison clause is a function of the simulated '
+        'clock and of the history of operations on it.'),
+    'C13': dict(
+        level='exploration', ref='DESIGN.md section 4 C13',
+        technique=TECH + 'call histories x simulated monotonic clock step '
+        'patterns (stall, jump, backward step) against a reference state '
+        'machine fed the same clock readings',
+        text='Seeded search over call histories (<= 40 calls over the whole '
+        'method alphabet incl. the context-manager protocol) x durations x '
+        'clock patterns with the documented clock seam timeutils.now '
+        'replaced by a simulated clock that moves on every read and between '
+        'calls; every return value / RuntimeError is compared with a '
+        'reference machine that receives the readings handed out during the '
+        'call. Exact equality while the clock is monotonic; clamps, '
+        'legality and flags only after a backward step. All 3 x 13 '
+        '(state, op) transitions are reached in every batch (reported).',
+        note='Sampling of histories, not the exhaustive length-6 enumeration '
+        'the quantifier mentions (that would be model checking).'),
+})
 CLAIMED = {k: v for k, v in CLAIMED.items()
            if os.path.exists(os.path.join(HERE, 'checks', k.lower() + '.py'))}
 
